@@ -1,7 +1,7 @@
 #!/venv/bin/python
 """Sampled first-order mutation analysis of /repo/graphslam against the quick checks.
 
-usage: tools/mutation_sample.py [--n 200] [--seed 0] [--jobs 4] [--out /tmp/mutation.json] [--with-tests]
+usage: tools/mutation_sample.py [--n 200 | --per-file 25] [--seed 0] [--jobs 4] [--out /tmp/mutation.json] [--with-tests]
 
 Every mutant is one AST node of one source file changed by a classic operator (relational / arithmetic / boolean operator
 replacement, unary minus removal, numeric constant perturbation, small integer subscript shift).  The mutated file is written
@@ -179,7 +179,16 @@ def main():
             allc.append((rel, path, op))
     rng = random.Random(seed)
     rng.shuffle(allc)
-    sample = allc[:n]
+    per_file = int(opt("--per-file", 0))
+    if per_file:
+        # stratified: at most per_file mutants of each source file (the two SE(3)/SE(2) pose files hold most of the arithmetic nodes)
+        seen, sample = {}, []
+        for rel, path, op in allc:
+            if seen.get(rel, 0) < per_file:
+                sample.append((rel, path, op))
+                seen[rel] = seen.get(rel, 0) + 1
+    else:
+        sample = allc[:n]
     print("candidates: %d, sampled: %d" % (len(allc), len(sample)), flush=True)
     res = []
     with ThreadPoolExecutor(max_workers=jobs) as ex:
